@@ -1,10 +1,11 @@
 /-
 C15 — model of lnd's invoice settlement logic:
-  invoices/update.go          (resolveReplayedHtlc, updateInvoice, updateMpp, updateLegacy, isValidKeySend)
+  invoices/update.go          (resolveReplayedHtlc, updateInvoice, updateMpp incl. AMP /
+                               reconstructAMPPreimages, updateLegacy, isValidKeySend)
   invoices/update_invoice.go  (UpdateInvoice appliers: addHTLCs incl. AmtPaid recomputation,
                                cancelHTLCs, settleHodlInvoice, cancelInvoice,
                                getUpdatedInvoiceState, getUpdatedHtlcState, canCancelSingleHtlc)
-  invoices/invoiceregistry.go (NotifyExitHopHtlc incl. processKeySend, SettleHodlInvoice,
+  invoices/invoiceregistry.go (NotifyExitHopHtlc incl. processKeySend / processAMP, SettleHodlInvoice,
                                CancelInvoice, cancelSingleHtlc = htlc set timeout, hodl subscriptions)
   channeldb/invoices.go, invoices/sql_store.go (fetchInvoiceNumByRef / getInvoiceByRef only)
 
@@ -32,7 +33,7 @@ inductive CState | open | accepted | settled | canceled
 inductive HState | accepted | canceled | settled
   deriving DecidableEq, Repr, Inhabited
 
-/-- `FailResolutionResult` values that occur for non-AMP invoices. -/
+/-- `FailResolutionResult` values that occur (the external-interceptor ones are not modelled). -/
 inductive FailReason
   | replayToCanceled | invoiceAlreadyCanceled | invoiceAlreadySettled | amountTooLow
   | expiryTooSoon | canceled | invoiceNotOpen | mppTimeout | addressMismatch
